@@ -393,12 +393,6 @@ def deserialize_single_field(  # pylint: disable=too-many-branches
         value = field.deserialize(source_val)
     elif isinstance(field, Anything) or field is None:
         value = source_val
-    elif isinstance(field, TypedField) and isinstance(source_val, (list, dict)):
-        ty = getattr(field, "_ty")
-        if isinstance(source_val, list):
-            value = ty(*source_val)
-        elif isinstance(source_val, dict):
-            value = ty(**source_val)
     elif isinstance(field, NoneField):
         raise ValueError(f"{name}: Got {wrap_val(source_val)}; Expected None")
     elif isinstance(field, TypedField) and getattr(field, "_ty", "") in {
@@ -409,6 +403,12 @@ def deserialize_single_field(  # pylint: disable=too-many-branches
         raise TypeError(
             f"{name}: Expected {getattr(field, '_ty')}; Got {wrap_val(source_val)}"
         )
+    elif isinstance(field, TypedField) and isinstance(source_val, (list, dict)):
+        ty = getattr(field, "_ty")
+        if isinstance(source_val, list):
+            value = ty(*source_val)
+        elif isinstance(source_val, dict):
+            value = ty(**source_val)
     else:
         raise NotImplementedError(
             f"{name}: Got {wrap_val(source_val)}; Cannot deserialize value of type {field.__class__.__name__}. Are "
